@@ -63,10 +63,11 @@ template <class C> struct Runner {
         std::basic_string<C> t = widen<C>("s://h/a/../b?q"), q = widen<C>("a=b&c"); const C *ep;
         Uri good, base; A::ParseSingleUriEx(&good, t.data(), t.data() + t.size(), &ep); A::ParseSingleUriEx(&base, t.data(), t.data() + t.size(), &ep);
         QL node; std::basic_string<C> k = widen<C>("k"); node.key = k.c_str(); node.value = 0; node.next = 0;
+        Uri owner; A::ParseSingleUriEx(&owner, t.data(), t.data() + t.size(), &ep); A::MakeOwner(&owner);     // an owner URI: the "nothing to copy" shortcuts must not come before the manager check
         for (int missing = 1; missing < 32; missing++) {
             led.reset(); UriMemoryManager m = led.led.mm;
             if (missing & 1) m.malloc = 0; if (missing & 2) m.calloc = 0; if (missing & 4) m.realloc = 0; if (missing & 8) m.reallocarray = 0; if (missing & 16) m.free = 0;
-            for (int fn = 0; fn < 10; fn++) {
+            for (int fn = 0; fn < 14; fn++) {
                 lc->incomplete++; ctx->progress++;
                 Uri out; memset(&out, 0xEE, sizeof out); Uri pat = out; QL *ql = (QL *)0x11; C *cs = (C *)0x22; int cnt = -5; int rc = -1; int sig;
                 Str e = fmt("incomplete`%d`%d`%s", missing, fn, A::name());
@@ -83,6 +84,10 @@ template <class C> struct Runner {
                 case 7: rc = A::DissectQueryMallocExMm(&ql, &cnt, q.data(), q.data() + q.size(), URI_TRUE, URI_BR_DONT_TOUCH, &m); out_checked = false; if (ql != (QL *)0x11 && ql != 0) rc = -101; break;
                 case 8: rc = A::FreeQueryListMm(&node, &m); out_checked = false; break;
                 case 9: { UriMemoryManager x = m; rc = uriTestMemoryManager(&x); out_checked = false; break; }
+                case 10: rc = A::MakeOwnerMm(&owner, &m); out_checked = false; break;
+                case 11: rc = A::NormalizeSyntaxExMm(&owner, 63, &m); out_checked = false; break;
+                case 12: rc = A::NormalizeSyntaxExMm(&good, 0, &m); out_checked = false; break;
+                case 13: rc = A::FreeUriMembersMm(&owner, &m); out_checked = false; break;
                 }
                 GUARD_LEAVE();
                 Str what;
@@ -93,7 +98,7 @@ template <class C> struct Runner {
                 if (!what.empty()) ctx->violation("", e, what);
             }
         }
-        A::FreeUriMembers(&good); A::FreeUriMembers(&base);
+        A::FreeUriMembers(&good); A::FreeUriMembers(&base); A::FreeUriMembers(&owner);
     }
 };
 void run(Ctx &ctx) {
